@@ -224,6 +224,6 @@ def run(ctx):
     rule_resolve(ctx, py)
     rule_tiling(ctx, py)
     rule_units(ctx, py)
-    from .. import truth
-    truth.rule(ctx, "C17.TRUTH", ctx.py, ["rdoutput"], floor=8)
+    from .. import lints
+    lints.run(ctx, "C17", ctx.py, ["rdoutput"], truth_floor=8)
     ctx.assume("returned values are not decided; the data layout written by the engine is C09.LAYOUT-OUT")
